@@ -519,6 +519,12 @@ impl<P: Protocol> Sim<P> {
         self.queue.push(InFlight { due, seq: self.seq, src, to: to as u16 + 1, id: 0, bytes, orig });
     }
 
+    /// a verbatim copy of a datagram a node really sent (duplicating network / replay), delivered at `due` with source `src`
+    pub fn inject_copy(&mut self, to: usize, src: SocketAddr, d: &Dgram, due: Time) {
+        self.seq += 1;
+        self.queue.push(InFlight { due, seq: self.seq, src, to: to as u16 + 1, id: 0, bytes: d.bytes.clone(), orig: (d.from, d.inc, d.tag) });
+    }
+
     /// immediate presentation of a datagram to node `to` (bypasses the queue); returns what the node did
     pub fn present(&mut self, to: usize, src: SocketAddr, bytes: &[u8]) -> CallResult {
         let orig = if self.trace.is_some() {
@@ -799,4 +805,13 @@ pub fn write_cloud_blocks(path: &str) -> usize {
     }
     f.flush().unwrap();
     n
+}
+
+/// IPv6 packet with the given addresses and payload
+pub fn ipv6_packet(src: [u8; 16], dst: [u8; 16], payload: &[u8]) -> Vec<u8> {
+    let mut p = vec![0x60, 0, 0, 0, 0, payload.len() as u8, 17, 64];
+    p.extend_from_slice(&src);
+    p.extend_from_slice(&dst);
+    p.extend_from_slice(payload);
+    p
 }
